@@ -8,20 +8,20 @@ Local Open Scope nat_scope.
 Theorem C19_output_sends_within_receivers :
   forall (m t : nat) (R : list nat) (p r : nat), In r (out_sends m t R p) -> In r R.
 Proof. exact output_sends_within_receivers. Qed.
-Print Assumptions C19_output_sends_within_receivers.
+Print Assumptions C19_output_sends_within_receivers .
 
 (** so a party q outside R is sent nothing by anybody, and itself waits for nothing *)
 Theorem C19_output_nonreceiver_silent :
   forall (m t : nat) (R : list nat) (q : nat),
     ~ In q R -> (forall p, ~ In q (out_sends m t R p)) /\ out_recvs m t R q = [].
 Proof. exact output_nonreceiver_silent. Qed.
-Print Assumptions C19_output_nonreceiver_silent.
+Print Assumptions C19_output_nonreceiver_silent .
 
 (** nobody sends its share to itself *)
 Theorem C19_output_sends_not_self :
   forall (m t : nat) (R : list nat) (p : nat), p < m -> ~ In p (out_sends m t R p).
 Proof. exact output_sends_not_self. Qed.
-Print Assumptions C19_output_sends_not_self.
+Print Assumptions C19_output_sends_not_self .
 
 (** transfer, all three argument forms: party i writes a frame to j only if (i,j) is a
     designated arc of the graph ... *)
@@ -29,7 +29,7 @@ Theorem C19_transfer_sends_within_receivers :
   forall (G : Graph) (i j : nat) (l : list nat),
     wf G -> transfer_sends G i = Some l -> In j l -> arc G i j.
 Proof. exact transfer_sends_within_receivers. Qed.
-Print Assumptions C19_transfer_sends_within_receivers.
+Print Assumptions C19_transfer_sends_within_receivers .
 
 (** ... so a party j that is nobody's designated receiver is sent nothing, whoever the sender *)
 Theorem C19_transfer_nonreceiver_silent :
@@ -40,7 +40,7 @@ Proof.
   - intros i l Hs Hj. apply (H i). eapply transfer_sends_within_receivers; eauto.
   - apply transfer_nonreceiver. exact H.
 Qed.
-Print Assumptions C19_transfer_nonreceiver_silent.
+Print Assumptions C19_transfer_nonreceiver_silent .
 
 (** non-vacuity: m = 5, threshold 3, R = [1;4]: only 1 and 4 are ever addressed; the graph
     {0:[2], 1:[2;0], 2:[]} addresses only 2 and 0 *)
